@@ -585,7 +585,7 @@ func (t DateTime) ISOWeek() int {
 }
 
 func (t DateTime) weekNumber(firstWeekday int) int {
-	yday := t.YearDay()
+	yday := t.YearDay() - 1 // zero-based, like C's tm_yday
 	wday := t.WeekdayFromSunday()
 
 	if firstWeekday == 1 {
